@@ -13,12 +13,14 @@ STD_METHODS = [
     {'name': 'nul', 'sig': [], 'ctx': ('none',), 'body': ('ret', None)},
     {'name': 'slow', 'sig': [('a', 'PK', True)], 'ctx': ('none',), 'body': ('ret', 'slow'), 'yields': 3},
     {'name': 'ctxm', 'sig': [('c', 'PK', False), ('a', 'PK', True)], 'ctx': ('name', 'c'), 'body': ('env',)},
+    # a class-based view whose constructor raises: the request fails before the method is bound (-32603)
+    {'name': 'vbad', 'sig': [('a', 'PK', True)], 'ctx': ('view', False, 'raise'), 'body': ('bindfail',)},
 ]
 STD_CFG = {'methods': STD_METHODS, 'mws': [], 'ehs': [], 'max_batch': None}
 
 J = [A, '2.0', '1.0', 2.0, None]
 I = [A, None, 0, 1, -1, 2 ** 64, '', 'a', '1', True, 1.5, [], {}]
-M = [A, 'one', 'two', 'boom', 'perr', 'perr2', 'nul', 'ctxm', 'nosuch', '', 1, None]
+M = [A, 'one', 'two', 'boom', 'perr', 'perr2', 'nul', 'ctxm', 'vbad', 'nosuch', '', 1, None]
 P = [A, [], [1], [1, 2], {}, {'a': 1}, {'a': 1, 'b': 2}, {'b': 1}, None, 1, 'x', [None], [[1, {'k': 'v'}]], [1, 2, 3], {'c': 9}]
 
 
@@ -39,7 +41,7 @@ def valid_element(rnd, notif_p=0.25, bad_p=0.08):
     if r < bad_p:
         return rnd.choice([1, None, 'x', [], {}, True, obj(*[rnd.choice(X) for X in (J, I, M, P)])])
     i = A if rnd.random() < notif_p else rnd.choice([None, 0, 1, 2, 3, -1, '1', 'a', '', 2 ** 64])
-    return obj('2.0', i, rnd.choice(['one', 'one', 'two', 'boom', 'perr', 'perr2', 'nul', 'ctxm', 'nosuch']),
+    return obj('2.0', i, rnd.choice(['one', 'one', 'two', 'boom', 'perr', 'perr2', 'nul', 'ctxm', 'nosuch', 'vbad']),
                rnd.choice([A, [], [1], {'a': 2}, [1, 2], {'b': 1}, {'a': 1, 'b': None}]))
 
 
